@@ -28,7 +28,11 @@ def qlit(x):
 def gen_ports(rng):
     n = rng.choice([1, 2, 2, 3, 3, 3, 4, 4, 5, 6])
     style = rng.random()
-    if style < 0.4:
+    if style < 0.15 and n >= 3:
+        # numeric names whose concatenations collide ('1','3' vs '13'), as in zen3/zen4
+        pool = ["1", "2", "3", "12", "13", "23", "0", "10"]
+        names = pool[:n] if rng.random() < 0.5 else rng.sample(pool, n)
+    elif style < 0.4:
         names = [str(i) for i in range(n)]                       # single characters: usable as "012" strings
     elif style < 0.7:
         names = [str(i) if rng.random() < 0.5 else "%dD" % i for i in range(n)]
@@ -68,6 +72,26 @@ def gen_case(rng, mode=None, maxlen=12):
     forms = [gen_form(rng, ports) for _ in range(rng.randint(1, 5))]
     n = rng.choice([1, 2, 3, 3, 4, 5, 6, 8, maxlen])
     kernel = [rng.randrange(len(forms)) for _ in range(n)]
+    # the alternative search is exponential in the number of instructions with alternatives: keep <= 2 of them
+    dicts = [i for i, fi in enumerate(kernel) if isinstance(forms[fi]["uops"], dict)]
+    plain = [j for j, f in enumerate(forms) if not isinstance(f["uops"], dict)]
+    for i in dicts[2:]:
+        if not plain:
+            f = gen_form(rng, ports)
+            if isinstance(f["uops"], dict):
+                f["uops"] = list(f["uops"].values())[0]
+            forms.append(f)
+            plain.append(len(forms) - 1)
+        kernel[i] = rng.choice(plain)
+    # port names whose concatenation is another port name: use both port sets in one model
+    for a, b in (("1", "3"), ("1", "2"), ("2", "3")):
+        if a in ports and b in ports and a + b in ports and rng.random() < 0.8:
+            forms.append({"tp": 1.0, "uops": [[rng.choice([1, 2, 0.5]), [a, b]]]})
+            forms.append({"tp": 1.0, "uops": [[rng.choice([1, 2]), [a + b]]]})
+            pair = [len(forms) - 2, len(forms) - 1]
+            rng.shuffle(pair)
+            kernel = pair + kernel if rng.random() < 0.5 else kernel + pair
+            break
     return {"ports": ports, "forms": forms, "kernel": kernel, "mode": mode or rng.choice(MODES)}
 
 
@@ -89,6 +113,37 @@ def semantics_for(ports, isa="x86"):
 
 
 ERRS = {"IndexError": "EIndex", "ValueError": "EValue", "KeyError": "EKey"}
+
+_cli_code = {}
+
+
+def cli_schedule(sem, kernel, mm=None):
+    """Run exactly the statements osaca.inspect() executes under `if not args.fixed:` (extracted from the CURRENT
+    source with ast), so that 'optimised twice as the CLI does' follows the code and not an assumption."""
+    import ast
+    import inspect as _inspect
+    import textwrap
+    import types
+    import osaca.osaca as oo
+    if "code" not in _cli_code:
+        tree = ast.parse(textwrap.dedent(_inspect.getsource(oo.inspect)))
+        body = None
+        for node in ast.walk(tree):
+            if isinstance(node, ast.If) and ast.unparse(node.test).replace(" ", "") in ("notargs.fixed", "args.fixedisFalse", "args.fixed==False"):
+                body = node.body
+                break
+        if body is None:
+            _cli_code["code"] = None
+        else:
+            mod = ast.Module(body=body, type_ignores=[])
+            ast.fix_missing_locations(mod)
+            _cli_code["code"] = compile(mod, "<osaca.inspect: if not args.fixed>", "exec")
+            _cli_code["text"] = "\n".join(ast.unparse(b) for b in body)
+    if _cli_code["code"] is None:
+        raise LookupError("the `if not args.fixed:` block of osaca.inspect was not found")
+    ns = dict(vars(oo))
+    ns.update({"semantics": sem, "kernel": kernel, "machine_model": mm, "args": types.SimpleNamespace(fixed=False)})
+    exec(_cli_code["code"], ns)
 
 
 def classify_exc(e):
@@ -113,11 +168,13 @@ def run_impl(case):
             inst.throughput = f["tp"]
             inst.latency = 1.0
             kernel.append(inst)
-        if case["mode"] in ("once", "twice"):
+        if case["mode"] == "once":
             sem.assign_optimal_throughput(kernel)
         if case["mode"] == "twice":
-            sem.assign_optimal_throughput(kernel)
+            cli_schedule(sem, kernel, mm)
         tps = sem.get_throughput_sum(kernel)
+    except LookupError:
+        raise
     except Exception as e:  # noqa
         return ("err", classify_exc(e), repr(e))
     return ("ok", [[float(x) for x in i.port_pressure] for i in kernel], [float(x) for x in tps],
@@ -328,10 +385,10 @@ def real_case(arch, path, mode):
     case = {"ports": ports, "forms": forms, "kernel": list(range(len(kernel))), "mode": mode, "init_pp": init,
             "real": [arch, os.path.relpath(path, vlib.REPO)]}
     try:
-        if mode in ("once", "twice"):
+        if mode == "once":
             sem.assign_optimal_throughput(kernel)
         if mode == "twice":
-            sem.assign_optimal_throughput(kernel)
+            cli_schedule(sem, kernel, mm)
         tps = sem.get_throughput_sum(kernel)
         out = ("ok", [[float(x) for x in i.port_pressure] for i in kernel], [float(x) for x in tps], [i.port_uops for i in kernel])
     except Exception as e:  # noqa
